@@ -63,7 +63,7 @@ _GEN = re.compile(r'(\d+) states generated, (\d+) distinct states found')
 _DEPTH = re.compile(r'The depth of the complete state graph search is (\d+)')
 _INV = re.compile(r'Error: Invariant (\S+) is violated')
 _PROP = re.compile(r'Error: (?:Action property|Temporal properties were violated|Property) ?(\S*)')
-_COV = re.compile(r'^<(\w+) line \d+, col \d+ to line \d+, col \d+ of module (\w+)>: (\d+):(\d+)', re.M)
+_COV = re.compile(r'^<(\w+) line \d+, col \d+ to line \d+, col \d+ of module (\w+)(?: \([\d ]+\))?>: (\d+):(\d+)', re.M)
 
 
 def run(module, cfg, scratch, workers=None, timeout=3600, env=None, dump=None, extra=(),
